@@ -131,13 +131,13 @@ static int handshake(const char *caFile, psProtocolVersion_t ver,
     return ok;
 }
 
-int main(int argc, char **argv)
+int main(void)
 {
     psX509Cert_t *t = NULL;
     int32 rc;
-    int v = 0;
+    int v = 0, controlsFailed = 0;
 
-    g_trace = (argc > 1);
+    g_trace = (getenv("TRACE") != NULL);
     if (matrixSslOpen() < 0)
     {
         return 2;
@@ -168,11 +168,24 @@ int main(int argc, char **argv)
             "rejected trust anchor\n");
         v++;
     }
+    /* The partial-bundle feature itself must keep working: the good root in
+       the same bundle still authenticates honest chains */
+    controlsFailed += !control_connect("TLS 1.2, CA bundle = Good Root CA + "
+            "rejected CA, honest chain under Good Root CA",
+            CERTDIR "/d4_bundle.pem", CERTDIR "/ok_chain.pem",
+            CERTDIR "/ok_leaf.key", v_tls_1_2, NULL);
+    controlsFailed += !control_connect("TLS 1.3, same", CERTDIR "/d4_bundle.pem",
+            CERTDIR "/ok_chain.pem", CERTDIR "/ok_leaf.key", v_tls_1_3, NULL);
     matrixSslClose();
+    if (controlsFailed)
+    {
+        printf("CONTROL FAILED: an honest chain was refused\n");
+        return 3;
+    }
     if (v)
     {
         return 1;
     }
-    printf("no violation\n");
+    printf("OK: no violation\n");
     return 0;
 }
